@@ -8,6 +8,10 @@
 //!   row_both   = SerializeRow + DeserializeRow       row_ser / row_de     = one of them
 use crate::c16_drive::*;
 use cqlref::binder::{Leaf, Model, Val};
+// needed by name: for a struct with type parameters the deserialize derives emit the bound `T: DeserializeValue<'lifetime>`
+// with an unqualified trait path (hygiene wart of the macro, not a C16 matter)
+#[allow(unused_imports)]
+use scylla_cql::deserialize::value::DeserializeValue;
 
 macro_rules! fam {
     (value_both $($rest:tt)*) => { fam!(@emit [scylla_macros::SerializeValue, scylla_macros::DeserializeValue] [sv dv] $($rest)*); };
@@ -27,7 +31,7 @@ macro_rules! fam {
     (@emit [$($derive:path),*] [$($cap:ident)*] $name:ident [$($sattr:tt)*] {
         $( $(#[scylla($($fattr:tt)*)])* $f:ident : $t:ty ),* $(,)?
     }) => {
-        #[derive(Clone, Debug, $($derive),*)]
+        #[derive(Clone, Debug, Default, $($derive),*)]
         #[scylla(crate = "scylla_cql", $($sattr)*)]
         pub struct $name {
             $( $(#[scylla($($fattr)*)])* pub $f: $t, )*
@@ -37,15 +41,50 @@ macro_rules! fam {
             fn cell() -> Option<(cqlref::binder::Kind, bool)> { None }
             fn struct_leaves() -> Vec<Leaf> {
                 let mut leaves = Vec::new();
-                $( push_field_leaves(&mut leaves, stringify!($f), &[$(stringify!($($fattr)*)),*], <$t as FieldTy>::cell(), <$t as FieldTy>::struct_leaves()); )*
+                $( push_field_leaves(&mut leaves, stringify!($f), &[$(stringify!($($fattr)*)),*], <$t as FieldTy>::cell(), <$t as FieldTy>::struct_leaves(), <$t as FieldTy>::struct_model()); )*
                 leaves
             }
-            fn from_vals(vals: &mut std::slice::Iter<'_, Val>) -> Self {
-                $( let $f = <$t as FieldTy>::from_vals(vals); )*
+            fn struct_model() -> Option<Model> {
+                let (flavor, skip_name_checks, forbid) = parse_struct_attrs(stringify!($($sattr)*));
+                Some(Model { flavor, skip_name_checks, forbid_excess_udt_fields: forbid, leaves: <$name as FieldTy>::struct_leaves() })
+            }
+            fn from_vals(vals: &mut std::slice::Iter<'_, Val>, flat: bool) -> Self {
+                if !flat {
+                    // nested UDT field: one Val::Udt holding this struct's leaves
+                    return match vals.next() {
+                        Some(Val::Udt(inner)) => <$name as FieldTy>::from_vals(&mut inner.iter(), true),
+                        other => panic!("harness: nested {} fed with {:?}", stringify!($name), other),
+                    };
+                }
+                $( let $f = <$t as FieldTy>::from_vals(vals, is_flat(&[$(stringify!($($fattr)*)),*])); )*
                 $name { $($f),* }
             }
-            fn to_vals(&self, out: &mut Vec<Val>) {
-                $( <$t as FieldTy>::to_vals(&self.$f, out); )*
+            fn to_vals(&self, out: &mut Vec<Val>, flat: bool) {
+                if !flat {
+                    let mut inner = Vec::new();
+                    <$name as FieldTy>::to_vals(self, &mut inner, true);
+                    out.push(Val::Udt(inner));
+                    return;
+                }
+                $( <$t as FieldTy>::to_vals(&self.$f, out, is_flat(&[$(stringify!($($fattr)*)),*])); )*
+            }
+        }
+        #[allow(unused_mut, unused_variables)]
+        impl FieldTy for Option<$name> {
+            fn cell() -> Option<(cqlref::binder::Kind, bool)> { Some((cqlref::binder::Kind::Udt, true)) }
+            fn struct_model() -> Option<Model> { <$name as FieldTy>::struct_model() }
+            fn from_vals(vals: &mut std::slice::Iter<'_, Val>, _flat: bool) -> Self {
+                match vals.next() {
+                    Some(Val::Null) => None,
+                    Some(Val::Udt(inner)) => Some(<$name as FieldTy>::from_vals(&mut inner.iter(), true)),
+                    other => panic!("harness: Option<{}> fed with {:?}", stringify!($name), other),
+                }
+            }
+            fn to_vals(&self, out: &mut Vec<Val>, _flat: bool) {
+                match self {
+                    None => out.push(Val::Null),
+                    Some(t) => <$name as FieldTy>::to_vals(t, out, false),
+                }
             }
         }
         impl $name {
@@ -54,11 +93,12 @@ macro_rules! fam {
                 Entry {
                     name: stringify!($name),
                     source: stringify!(#[scylla($($sattr)*)] struct $name { $( $(#[scylla($($fattr)*)])* $f: $t, )* }),
-                    model: Model { flavor, skip_name_checks, forbid_excess_udt_fields: forbid, leaves: <$name as FieldTy>::struct_leaves() },
+                    model: { let _ = (flavor, skip_name_checks, forbid); <$name as FieldTy>::struct_model().unwrap() },
                     ser_value: fam!(@has sv [$($cap)*] ser_value_drv::<$name> as SerValueFn),
                     de_value: fam!(@has dv [$($cap)*] de_value_drv::<$name> as DeValueFn),
                     ser_row: fam!(@has sr [$($cap)*] ser_row_drv::<$name> as SerRowFn),
                     de_row: fam!(@has dr [$($cap)*] de_row_drv::<$name> as DeRowFn),
+                    is_empty: fam!(@has sr [$($cap)*] is_empty_drv::<$name> as IsEmptyFn),
                 }
             }
         }
@@ -120,6 +160,37 @@ fam!(value_both V39 [flavor = "enforce_order", skip_name_checks] { a: String, #[
 fam!(row_both R16 [] {});
 fam!(row_both R17 [] { a: Option<String> });
 fam!(row_both R32 [flavor = "enforce_order"] { a: Option<String>, b: i32 });
+// ------------------------------------------------------------------------------------------------
+// derived UDTs nested inside derived structs (both levels permuted / thinned / extended independently)
+// ------------------------------------------------------------------------------------------------
+fam!(value_both NIn [] { p: i32, q: Option<String>, r: i32 });
+fam!(value_both NInO [flavor = "enforce_order"] { p: i32, #[scylla(allow_missing)] q: Option<String>, r: i32 });
+// by-name outer, by-name inner, plain + Option + default_when_null nested fields
+fam!(value_both N01 [] { a: i32, inner: NIn, #[scylla(default_when_null)] dflt: NIn, opt: Option<NIn> });
+// ordered outer with an ordered inner and a by-name inner; allow_missing nested field in the middle
+fam!(value_both N02 [flavor = "enforce_order"] { a: i32, #[scylla(allow_missing)] ord: NInO, byname: Option<NIn>, z: String });
+// by-name outer with an ordered inner
+fam!(value_both N03 [forbid_excess_udt_fields] { #[scylla(rename = "in")] ord: NInO, b: bool });
+// rows holding derived UDTs
+fam!(row_both N04 [] { id: i32, u: NIn, #[scylla(default_when_null)] v: Option<NInO> });
+fam!(row_both N05 [flavor = "enforce_order"] { id: i32, u: Option<NIn>, w: V08 });
+// three levels
+fam!(value_both N06 [] { top: i32, mid: Option<N03> });
+
+// default_when_null on every carrier kind, Option and not, under each flavor (explicit null vs truncated UDT)
+fam!(value_both V40 [] { #[scylla(default_when_null)] a: i32, #[scylla(default_when_null)] b: Option<i32>, #[scylla(default_when_null)] c: Vec<i32>, #[scylla(default_when_null)] d: f64, #[scylla(default_when_null)] f: Option<String> });
+fam!(value_both V41 [flavor = "enforce_order"] { #[scylla(default_when_null)] a: i32, #[scylla(default_when_null)] b: Option<i32>, #[scylla(default_when_null)] c: Vec<i32>, #[scylla(default_when_null)] d: bool, #[scylla(default_when_null)] e: f64 });
+fam!(value_both V42 [flavor = "enforce_order", skip_name_checks] { #[scylla(default_when_null)] a: i32, #[scylla(default_when_null)] b: Option<i32>, #[scylla(default_when_null)] c: Vec<i32>, #[scylla(default_when_null)] d: String, #[scylla(allow_missing)] #[scylla(default_when_null)] e: f64 });
+fam!(row_both R34 [] { #[scylla(default_when_null)] a: i32, #[scylla(default_when_null)] b: Option<i32>, #[scylla(default_when_null)] c: Vec<i32>, #[scylla(default_when_null)] d: bool, #[scylla(default_when_null)] e: f64 });
+fam!(row_both R35 [flavor = "enforce_order", skip_name_checks] { #[scylla(default_when_null)] a: i32, #[scylla(default_when_null)] b: Option<i32>, #[scylla(default_when_null)] c: Vec<i32>, #[scylla(default_when_null)] d: String });
+// ordered row: rename + skip + default_when_null together
+fam!(row_both R33 [flavor = "enforce_order"] { #[scylla(rename = "bee")] b: i32, #[scylla(skip)] s: String, #[scylla(default_when_null)] c: String, d: Option<i64> });
+// ordered UDT: allow_missing first, two consecutive allow_missing in the middle, required fields after them
+fam!(value_both V43 [flavor = "enforce_order"] { #[scylla(allow_missing)] a: i32, b: String, #[scylla(allow_missing)] c: Option<i64>, #[scylla(allow_missing)] d: bool, e: i32 });
+fam!(value_both V44 [flavor = "enforce_order", forbid_excess_udt_fields] { a: i32, #[scylla(allow_missing)] b: String, c: bool });
+// by-name row: rename + skip next to two flattened structs
+fam!(row_ser R36 [] { #[scylla(rename = "aa")] a: i32, #[scylla(skip)] s: i32, #[scylla(flatten)] f1: FIn1, #[scylla(flatten)] f3: FIn3 });
+
 // single-derive structs (attribute sets that only one of the two value macros documents)
 fam!(value_ser V13 [] { a: i32, b: Option<String>, c: i64 });
 fam!(value_de V14 [] {
@@ -213,6 +284,27 @@ pub fn family() -> Vec<Entry> {
         V19::entry(),
         V35::entry(),
         V36::entry(),
+        NIn::entry(),
+        NInO::entry(),
+        N01::entry(),
+        N02::entry(),
+        N03::entry(),
+        N04::entry(),
+        N05::entry(),
+        N06::entry(),
+        V40::entry(),
+        V41::entry(),
+        V42::entry(),
+        V43::entry(),
+        V44::entry(),
+        R33::entry(),
+        R34::entry(),
+        R35::entry(),
+        R36::entry(),
+        gb_entry(),
+        gr_entry(),
+        gs_entry(),
+        gsr_entry(),
         V37::entry(),
         V38::entry(),
         V39::entry(),
@@ -269,4 +361,276 @@ pub fn family() -> Vec<Entry> {
         FOIn2::entry(),
         FOMid::entry(),
     ]
+}
+
+// ------------------------------------------------------------------------------------------------
+// borrowed fields, lifetime parameters named like the ones the deserialize derives introduce
+// ('lifetime, 'lifetime_), and type parameters - written by hand, the `fam!` macro has no generics
+// ------------------------------------------------------------------------------------------------
+#[derive(Debug, scylla_macros::SerializeValue, scylla_macros::DeserializeValue)]
+#[scylla(crate = "scylla_cql")]
+pub struct GB<'lifetime, 'lifetime_> {
+    pub a: &'lifetime str,
+    #[scylla(default_when_null)]
+    pub b: i64,
+    pub c: Option<&'lifetime_ str>,
+    #[scylla(allow_missing)]
+    pub d: Option<i64>,
+}
+
+// Type parameters: only the serialize derives accept them at this commit (the deserialize derives emit the
+// bound `T: DeserializeValue<'lifetime>` - one lifetime argument for a trait that takes two - and do not compile).
+#[derive(Debug, scylla_macros::SerializeValue)]
+#[scylla(crate = "scylla_cql")]
+pub struct GS<T: scylla_cql::serialize::value::SerializeValue, U: scylla_cql::serialize::value::SerializeValue> {
+    pub zeta: T,
+    #[scylla(rename = "bee")]
+    pub b: U,
+    pub c: Option<T>,
+}
+
+#[derive(Debug, scylla_macros::SerializeRow)]
+#[scylla(crate = "scylla_cql")]
+pub struct GSR<'a, T: scylla_cql::serialize::value::SerializeValue> {
+    pub zeta: T,
+    pub b: &'a str,
+    pub c: Option<T>,
+}
+
+#[derive(Debug, scylla_macros::SerializeRow, scylla_macros::DeserializeRow)]
+#[scylla(crate = "scylla_cql", flavor = "enforce_order")]
+pub struct GR<'a> {
+    pub a: &'a str,
+    #[scylla(rename = "bee")]
+    pub b: i64,
+    #[scylla(default_when_null)]
+    pub c: bool,
+    pub d: Option<i64>,
+}
+
+fn hand_leaf(rust: &str, db: &str, kind: cqlref::binder::Kind, optional: bool, allow_missing: bool, default_when_null: bool) -> Leaf {
+    Leaf { rust_name: rust.into(), db_name: db.into(), kind, optional, skip: false, allow_missing, default_when_null, nested: None }
+}
+
+fn text(v: &Val) -> &str {
+    match v {
+        Val::Text(s) => s,
+        other => panic!("harness: text leaf fed with {other:?}"),
+    }
+}
+fn opt_text(v: &Val) -> Option<&str> {
+    match v {
+        Val::Null => None,
+        other => Some(text(other)),
+    }
+}
+fn bigint(v: &Val) -> i64 {
+    match v {
+        Val::BigInt(x) => *x,
+        other => panic!("harness: bigint leaf fed with {other:?}"),
+    }
+}
+fn opt_bigint(v: &Val) -> Option<i64> {
+    match v {
+        Val::Null => None,
+        other => Some(bigint(other)),
+    }
+}
+fn gb_vals(g: &GB<'_, '_>) -> Vec<Val> {
+    vec![Val::Text(g.a.to_string()), Val::BigInt(g.b), g.c.map(|s| Val::Text(s.to_string())).unwrap_or(Val::Null), g.d.map(Val::BigInt).unwrap_or(Val::Null)]
+}
+fn gr_vals(g: &GR<'_>) -> Vec<Val> {
+    vec![Val::Text(g.a.to_string()), Val::BigInt(g.b), Val::Boolean(g.c), g.d.map(Val::BigInt).unwrap_or(Val::Null)]
+}
+
+pub fn gb_entry() -> Entry {
+    use cqlref::binder::{Flavor, Kind};
+    use scylla_cql::deserialize::FrameSlice;
+    use scylla_cql::serialize::value::SerializeValue;
+    use scylla_cql::serialize::writers::CellWriter;
+    fn ser(vals: &[Val], typ: &scylla_cql::frame::response::result::ColumnType<'static>) -> Out<Vec<u8>> {
+        let g = GB { a: text(&vals[0]), b: bigint(&vals[1]), c: opt_text(&vals[2]), d: opt_bigint(&vals[3]) };
+        guard(|| {
+            let mut buf = Vec::new();
+            match g.serialize(typ, CellWriter::new(&mut buf)) {
+                Ok(_) => Out::Ok(buf[4..].to_vec()),
+                Err(e) => Out::Err("ser", e.to_string()),
+            }
+        })
+    }
+    fn de(typ: &scylla_cql::frame::response::result::ColumnType<'static>, body: Option<&bytes::Bytes>) -> Out<Vec<Val>> {
+        guard(|| {
+            if let Err(e) = <GB<'_, '_> as DeserializeValue<'_, '_>>::type_check(typ) {
+                return Out::Err("typeck", e.to_string());
+            }
+            match <GB<'_, '_> as DeserializeValue<'_, '_>>::deserialize(typ, body.map(FrameSlice::new)) {
+                Ok(g) => Out::Ok(gb_vals(&g)),
+                Err(e) => Out::Err("deser", e.to_string()),
+            }
+        })
+    }
+    Entry {
+        name: "GB",
+        source: "struct GB<'lifetime, 'lifetime_> { a: &'lifetime str, #[scylla(default_when_null)] b: i64, c: Option<&'lifetime_ str>, #[scylla(allow_missing)] d: Option<i64> }",
+        model: Model {
+            flavor: Flavor::ByName,
+            skip_name_checks: false,
+            forbid_excess_udt_fields: false,
+            leaves: vec![hand_leaf("a", "a", Kind::Text, false, false, false), hand_leaf("b", "b", Kind::BigInt, false, false, true), hand_leaf("c", "c", Kind::Text, true, false, false), hand_leaf("d", "d", Kind::BigInt, true, true, false)],
+        },
+        ser_value: Some(ser),
+        de_value: Some(de),
+        ser_row: None,
+        de_row: None,
+        is_empty: None,
+    }
+}
+
+pub fn gr_entry() -> Entry {
+    use cqlref::binder::{Flavor, Kind};
+    use scylla_cql::deserialize::FrameSlice;
+    use scylla_cql::deserialize::row::{ColumnIterator, DeserializeRow};
+    use scylla_cql::frame::response::result::ColumnSpec;
+    use scylla_cql::serialize::row::{RowSerializationContext, SerializeRow};
+    use scylla_cql::serialize::writers::RowWriter;
+    fn build(vals: &[Val]) -> GR<'_> {
+        GR { a: text(&vals[0]), b: bigint(&vals[1]), c: matches!(vals[2], Val::Boolean(true)), d: opt_bigint(&vals[3]) }
+    }
+    fn ser(vals: &[Val], specs: &[ColumnSpec<'static>]) -> Out<Vec<u8>> {
+        let g = build(vals);
+        guard(|| {
+            let ctx = RowSerializationContext::from_specs(specs);
+            let mut buf = Vec::new();
+            let mut w = RowWriter::new(&mut buf);
+            match g.serialize(&ctx, &mut w) {
+                Ok(()) => {
+                    let count = w.value_count();
+                    match check_from_serializable(&g, &ctx, &buf, count) {
+                        Ok(()) => Out::Ok(buf),
+                        Err(why) => Out::Err("framing", why),
+                    }
+                }
+                Err(e) => Out::Err("ser", e.to_string()),
+            }
+        })
+    }
+    fn de(specs: &[ColumnSpec<'static>], body: &bytes::Bytes) -> Out<Vec<Val>> {
+        guard(|| {
+            if let Err(e) = <GR<'_> as DeserializeRow<'_, '_>>::type_check(specs) {
+                return Out::Err("typeck", e.to_string());
+            }
+            match <GR<'_> as DeserializeRow<'_, '_>>::deserialize(ColumnIterator::new(specs, FrameSlice::new(body))) {
+                Ok(g) => Out::Ok(gr_vals(&g)),
+                Err(e) => Out::Err("deser", e.to_string()),
+            }
+        })
+    }
+    fn is_empty(vals: &[Val]) -> bool {
+        build(vals).is_empty()
+    }
+    Entry {
+        name: "GR",
+        source: "#[scylla(flavor = \"enforce_order\")] struct GR<'a> { a: &'a str, #[scylla(rename = \"bee\")] b: i64, #[scylla(default_when_null)] c: bool, d: Option<i64> }",
+        model: Model {
+            flavor: Flavor::Ordered,
+            skip_name_checks: false,
+            forbid_excess_udt_fields: false,
+            leaves: vec![hand_leaf("a", "a", Kind::Text, false, false, false), hand_leaf("b", "bee", Kind::BigInt, false, false, false), hand_leaf("c", "c", Kind::Boolean, false, false, true), hand_leaf("d", "d", Kind::BigInt, true, false, false)],
+        },
+        ser_value: None,
+        de_value: None,
+        ser_row: Some(ser),
+        de_row: Some(de),
+        is_empty: Some(is_empty),
+    }
+}
+
+fn int(v: &Val) -> i32 {
+    match v {
+        Val::Int(x) => *x,
+        other => panic!("harness: int leaf fed with {other:?}"),
+    }
+}
+fn opt_int(v: &Val) -> Option<i32> {
+    match v {
+        Val::Null => None,
+        other => Some(int(other)),
+    }
+}
+
+pub fn gs_entry() -> Entry {
+    use cqlref::binder::{Flavor, Kind};
+    use scylla_cql::serialize::value::SerializeValue;
+    use scylla_cql::serialize::writers::CellWriter;
+    fn ser(vals: &[Val], typ: &scylla_cql::frame::response::result::ColumnType<'static>) -> Out<Vec<u8>> {
+        let g = GS::<i32, String> { zeta: int(&vals[0]), b: text(&vals[1]).to_string(), c: opt_int(&vals[2]) };
+        guard(|| {
+            let mut buf = Vec::new();
+            match g.serialize(typ, CellWriter::new(&mut buf)) {
+                Ok(_) => Out::Ok(buf[4..].to_vec()),
+                Err(e) => Out::Err("ser", e.to_string()),
+            }
+        })
+    }
+    Entry {
+        name: "GS",
+        source: "struct GS<T: SerializeValue, U: SerializeValue> { zeta: T, #[scylla(rename = \"bee\")] b: U, c: Option<T> }  (T = i32, U = String)",
+        model: Model {
+            flavor: Flavor::ByName,
+            skip_name_checks: false,
+            forbid_excess_udt_fields: false,
+            leaves: vec![hand_leaf("zeta", "zeta", Kind::Int, false, false, false), hand_leaf("b", "bee", Kind::Text, false, false, false), hand_leaf("c", "c", Kind::Int, true, false, false)],
+        },
+        ser_value: Some(ser),
+        de_value: None,
+        ser_row: None,
+        de_row: None,
+        is_empty: None,
+    }
+}
+
+pub fn gsr_entry() -> Entry {
+    use cqlref::binder::{Flavor, Kind};
+    use scylla_cql::frame::response::result::ColumnSpec;
+    use scylla_cql::serialize::row::{RowSerializationContext, SerializeRow};
+    use scylla_cql::serialize::writers::RowWriter;
+    fn build(vals: &[Val]) -> GSR<'_, i32> {
+        GSR { zeta: int(&vals[0]), b: text(&vals[1]), c: opt_int(&vals[2]) }
+    }
+    fn ser(vals: &[Val], specs: &[ColumnSpec<'static>]) -> Out<Vec<u8>> {
+        let g = build(vals);
+        guard(|| {
+            let ctx = RowSerializationContext::from_specs(specs);
+            let mut buf = Vec::new();
+            let mut w = RowWriter::new(&mut buf);
+            match g.serialize(&ctx, &mut w) {
+                Ok(()) => {
+                    let count = w.value_count();
+                    match check_from_serializable(&g, &ctx, &buf, count) {
+                        Ok(()) => Out::Ok(buf),
+                        Err(why) => Out::Err("framing", why),
+                    }
+                }
+                Err(e) => Out::Err("ser", e.to_string()),
+            }
+        })
+    }
+    fn is_empty(vals: &[Val]) -> bool {
+        build(vals).is_empty()
+    }
+    Entry {
+        name: "GSR",
+        source: "struct GSR<'a, T: SerializeValue> { zeta: T, b: &'a str, c: Option<T> }  (T = i32)",
+        model: Model {
+            flavor: Flavor::ByName,
+            skip_name_checks: false,
+            forbid_excess_udt_fields: false,
+            leaves: vec![hand_leaf("zeta", "zeta", Kind::Int, false, false, false), hand_leaf("b", "b", Kind::Text, false, false, false), hand_leaf("c", "c", Kind::Int, true, false, false)],
+        },
+        ser_value: None,
+        de_value: None,
+        ser_row: Some(ser),
+        de_row: None,
+        is_empty: Some(is_empty),
+    }
 }
